@@ -70,6 +70,12 @@ def run(ctx):
         ctx.ob('C03.r2', C.name, 'downloaded blocks are sorted by number before they are returned', all(ccfg.dominates(sorts[0][0], e) for e in ccfg.exits), at=sorts[0][1].span)
         keyc = [c for c in P.closures_of(C) if P.call_sites(c, lambda k, t: k.endswith('RawHeader::number') or k.endswith('HeaderView::number'))]
         ctx.ob('C03.r2', C.name, 'the sort key is the block number', bool(keyc))
+        # ... as an integer: the key closure returns the unpacked u64 (packed numbers are little-endian bytes, whose
+        # lexicographic order is not numeric order); sort_by_key sorts ascending
+        num_key = bool(keyc) and keyc[0].ret.strip() == 'u64' and \
+            bool(P.call_sites(keyc[0], lambda k, t: k.endswith('Unpack>::unpack') or k.endswith('HeaderView::number')))
+        ctx.ob('C03.r2', C.name, 'the sort key is the number as an integer (u64), ascending', num_key and sorts[0][1].callee.find('sort_by_key') != -1 and 'Reverse' not in keyc[0].ret,
+               key_type=keyc[0].ret.strip() if keyc else None)
         cdu = DefUse(C)
         ret_ok = any(s.kind == 'assign' and s.lhs.strip() == '_0' and set(re.findall(r'_\d+', s.rhs)) & base_set(cdu, sorts[0][1].args[0])
                      for blk in C.blocks.values() if not blk.cleanup for s in blk.stmts)
